@@ -18,7 +18,7 @@ Why(ev) ==
            d1 == Diff(DFItem(want), DFItem(ev.out1))       \* an array of one in a single-item position IS that element
            w == IF ev.wire1.j = "none" THEN {} ELSE WireOKWhy(ev.wire1)
        IN d1
-          \o (IF d1 # <<>> \/ ev.out2 = ev.out1 \/ ev.out1.k = "nil" THEN <<>> ELSE
+          \o (IF d1 # <<>> \/ ev.out1.k = "nil" THEN <<>> ELSE
                 LET d2 == Diff(NFItem(ev.out1), NFItem(ev.out2)) IN IF d2 = <<>> THEN <<>> ELSE <<[d2[1] EXCEPT !.sym = "second-trip-" \o d2[1].sym]>>)
           \o (IF ev.fix THEN <<>> ELSE <<E("top", "top", "bytes-keep-changing")>>)
           \o (IF w = {} THEN <<>> ELSE <<E("wire", CHOOSE x \in w : TRUE, "written-form")>>)
